@@ -111,4 +111,18 @@ def opObjMget (args : List SExp) : Option OpResult := do
     pure ⟨pr, mustEqual "C10" s!"{kind}-multiget-accounting" pr⟩
   | _ => none
 
+/-- `obj.homeset <principal> ( ( cal|card <path> ) … ) => ( cal <path|-> ) ( card <path|-> )`: home-set discovery of
+    the two clients against the principal helper: each finds the home set of its own kind exactly as supplied, and an
+    error where none of its kind is supplied -/
+def opObjHomeSet (args : List SExp) : Option OpResult := do
+  match args with
+  | [_, .list sets] =>
+    let sets ← sets.mapM (fun s => match s with
+      | .list [.atom k, .atom p] => some (k, p)
+      | _ => none)
+    let pick : String → String := fun k => match sets.find? (·.1 == k) with | some (_, p) => p | none => "-"
+    let want := s!"( cal {pick "cal"} ) ( card {pick "card"} )"
+    pure ⟨want, mustEqual "C10" "home-set-discovery-differs-from-what-the-server-supplies" want⟩
+  | _ => none
+
 end Driver
